@@ -11,12 +11,16 @@
      original either (C02_exact_hop);
    - every error, every process with closed knowledge: from the second hop on Is
      never changes again (C02_stable).
-   Not proved: that the FIRST hop keeps the marks of kinds decoded to the opaque
-   stand-ins (it needs the text theorem missing in C01); decided on every run by the
-   correspondence stream and the implementation-side relation. *)
+   - the FIRST hop, every kind (Proofs/MarkHop.v): the mark (message + full sequence of
+     type marks) of EVERY visible node is kept by one (hence k) knowing hop(s) for every
+     error satisfying text_ok (C01) and mark_ok (no forced mark without types, no forwarded
+     errno whose platform is this one: both witnessed necessary), and so is Is / IsAny
+     against every reference that existed before the transfer and is not accepted by a
+     USER type's own Is method (those methods cannot survive: the type is not known on the
+     other side -- witness); symmetric statement for a transferred reference. *)
 From Errv Require Import Base.Str Model.Err Model.Sem Model.Details Model.Marks Model.Codec Model.Report
      Proofs.FastIs Proofs.MarksFacts Proofs.CodecFacts Proofs.EraseDef Proofs.EraseFacts Proofs.HopIdem
-     Proofs.ExactHop Proofs.IsErase.
+     Proofs.ExactHop Proofs.IsErase Proofs.TextHop Proofs.MarkHop.
 
 Theorem C02_decided_by_marks : forall e r,
   is_ e r = true <->
@@ -81,6 +85,53 @@ Theorem C02_unknowing_hops : forall p, knows_nothing p -> forall q x n m r,
   is_ (fst (decode q (encode (fst (decode p x n))) m)) r = is_ (fst (decode q x m)) r.
 Proof. intros p Hp q x n m r Hx. now rewrite (reencode_exact p Hp x Hx n). Qed.
 Print Assumptions C02_unknowing_hops.
+
+(* first hop, all kinds: the marks of every visible node *)
+Theorem C02_marks_first_hop : forall e k n,
+  text_ok e = true -> mark_ok e = true ->
+  mark_tree (fst (transfer (List.repeat all_knowing k) e n)) = mark_tree e.
+Proof. exact mark_tree_transfer. Qed.
+Print Assumptions C02_marks_first_hop.
+
+(* ... hence Is, for a reference r that existed before the transfer (oid below the
+   receiver's counter) and shares no identity with e *)
+Theorem C02_is_after_transfer : forall e r k n,
+  text_ok e = true -> mark_ok e = true ->
+  disjoint_ref e r -> (node_oid r < n)%positive ->
+  (forall c, In c (visit_all e) -> user_leaf c = true -> is_method c r = false) ->
+  is_ (fst (transfer (List.repeat all_knowing k) e n)) r = is_ e r.
+Proof. exact is_transfer_fresh. Qed.
+Print Assumptions C02_is_after_transfer.
+
+(* the reference transferred instead *)
+Theorem C02_is_reference_transferred : forall e' r k n,
+  text_ok r = true -> mark_ok r = true ->
+  (5 < n)%positive -> older_than n e' ->
+  (forall c, In c (visit_all e') -> own_match c r = true -> mark_match c r = true) ->
+  is_ e' (fst (transfer (List.repeat all_knowing k) r n)) = is_ e' r.
+Proof. exact is_ref_transfer_fresh. Qed.
+Print Assumptions C02_is_reference_transferred.
+
+(* the extra conditions are needed *)
+Theorem C02_mark_ok_needed :
+  ~ (forall e n, text_ok e = true -> mark_tree (fst (hop all_knowing e n)) = mark_tree e).
+Proof. exact mark_tree_hop_needs_mark_ok. Qed.
+Print Assumptions C02_mark_ok_needed.
+
+Theorem C02_user_is_method_lost :
+  text_ok cx_istag = true /\ mark_ok cx_istag = true /\
+  disjoint_refb cx_istag cx_istag_ref = true /\ no_user_isb cx_istag cx_istag_ref = false /\
+  mark_tree (fst (hop all_knowing cx_istag 200%positive)) = mark_tree cx_istag /\
+  is_ cx_istag cx_istag_ref = true /\ is_ (fst (hop all_knowing cx_istag 200%positive)) cx_istag_ref = false.
+Proof. exact is_hop_needs_no_user_is. Qed.
+Print Assumptions C02_user_is_method_lost.
+
+Example C02_first_hop_example :
+  text_ok mh_sample = true /\ mark_ok mh_sample = true /\
+  forallb (disjoint_refb mh_sample) mh_refs = true /\
+  forallb (no_user_isb mh_sample) mh_refs = true /\
+  List.map (is_ mh_sample) mh_refs = [true; true; true; false].
+Proof. exact mh_sample_ok. Qed.
 
 Example C02_example :
   let e := Wrap 101%positive (WHint (lit "h")) (Leaf oid_canceled (LErrString (lit "context canceled"))) in
